@@ -39,6 +39,42 @@ stage WORK(
     src comp "fake",
 )
 
+stage ECHOMAP(
+    in  map<int> want,
+    out map<int> vals,
+    src comp     "fake",
+)
+
+stage ECHOINTSS(
+    in  int[][] want,
+    out int[][] vals,
+    src comp    "fake",
+)
+
+stage ECHOMAPS(
+    in  map<int[]> want,
+    out map<int[]> vals,
+    src comp       "fake",
+)
+
+stage ECHOMAPARR(
+    in  map<int>[] want,
+    out map<int>[] vals,
+    src comp       "fake",
+)
+
+stage ECHOFLAGS(
+    in  bool[] want,
+    out bool[] flags,
+    src comp   "fake",
+)
+
+stage ECHOFLAGMAP(
+    in  map<bool> want,
+    out map<bool> flags,
+    src comp      "fake",
+)
+
 `
 
 // variant: 0 plain siblings, 1 sibling map calls (static array), 2 innermost
@@ -131,6 +167,326 @@ func c01DisableFamily(rng *rand.Rand, thorough bool) []c01Case {
 			}
 			add(depth, k, mask, rng.Intn(3), trueLevel)
 		}
+	}
+	return out
+}
+
+// ---- family 2: run-time split sources whose elements / values include null ----
+
+func c01IntLit(rng *rand.Rand) string {
+	if rng.Intn(3) == 0 {
+		return "null"
+	}
+	return fmt.Sprint(rng.Intn(9) + 1)
+}
+
+// an int[] literal chosen on purpose: null / empty / single / nulls inside
+func c01IntsLit(rng *rand.Rand) string {
+	switch rng.Intn(7) {
+	case 0:
+		return "null"
+	case 1:
+		return "[]"
+	case 2:
+		return "[null]"
+	case 3:
+		return "[" + fmt.Sprint(rng.Intn(9)+1) + "]"
+	case 4:
+		return "[null, null]"
+	}
+	n := 2 + rng.Intn(3)
+	parts := make([]string, n)
+	for i := range parts {
+		parts[i] = c01IntLit(rng)
+	}
+	return "[" + strings.Join(parts, ", ") + "]"
+}
+
+var c01FamKeys = []string{"a", "b", "c", "k1"}
+
+// a map<int> literal: single key, null values, all null (MRO has no empty map literal)
+func c01MapLit(rng *rand.Rand, elem func(*rand.Rand) string, allowNull bool) string {
+	if allowNull && rng.Intn(7) == 0 {
+		return "null"
+	}
+	n := 1 + rng.Intn(3)
+	keys := append([]string(nil), c01FamKeys...)
+	rng.Shuffle(len(keys), func(i, j int) { keys[i], keys[j] = keys[j], keys[i] })
+	ks := keys[:n]
+	sortStrings(ks)
+	parts := make([]string, n)
+	allNull := rng.Intn(5) == 0
+	for i, k := range ks {
+		v := elem(rng)
+		if allNull {
+			v = "null"
+		}
+		parts[i] = fmt.Sprintf("%q: %s", k, v)
+	}
+	return "{" + strings.Join(parts, ", ") + "}"
+}
+
+func sortStrings(a []string) {
+	for i := 1; i < len(a); i++ {
+		for j := i; j > 0 && a[j] < a[j-1]; j-- {
+			a[j], a[j-1] = a[j-1], a[j]
+		}
+	}
+}
+
+// shape: 0 flat array, 1 flat map, 2 inner array under a mapped pipeline with a
+// STATIC outer array, 3 … with a RUN-TIME outer array, 4 … with a RUN-TIME outer
+// map, 5 inner map under a run-time outer array
+func c01NullSplitProgram(rng *rand.Rand, shape int) string {
+	var sb strings.Builder
+	sb.WriteString(c01FamilyStages)
+	innerArr := `pipeline INNER(
+    in  int[] xs,
+    out int[] ys,
+)
+{
+    call ECHOINTS as SRC(
+        want = self.xs,
+    )
+
+    map call WORK(
+        x = split SRC.vals,
+    )
+
+    return (
+        ys = WORK.y,
+    )
+}
+
+`
+	innerMap := `pipeline INNER(
+    in  map<int> xs,
+    out map<int> ys,
+)
+{
+    call ECHOMAP as SRC(
+        want = self.xs,
+    )
+
+    map call WORK(
+        x = split SRC.vals,
+    )
+
+    return (
+        ys = WORK.y,
+    )
+}
+
+`
+	outerList := func(elem func() string) string {
+		n := 1 + rng.Intn(4)
+		parts := make([]string, n)
+		for i := range parts {
+			parts[i] = elem()
+		}
+		return "[" + strings.Join(parts, ", ") + "]"
+	}
+	switch shape {
+	case 0:
+		fmt.Fprintf(&sb, "pipeline TOP(\n    out int[] ys,\n)\n{\n    call ECHOINTS as SRC(\n        want = %s,\n    )\n\n    map call WORK(\n        x = split SRC.vals,\n    )\n\n    return (\n        ys = WORK.y,\n    )\n}\n\ncall TOP()\n", c01IntsLit(rng))
+	case 1:
+		fmt.Fprintf(&sb, "pipeline TOP(\n    out map<int> ys,\n)\n{\n    call ECHOMAP as SRC(\n        want = %s,\n    )\n\n    map call WORK(\n        x = split SRC.vals,\n    )\n\n    return (\n        ys = WORK.y,\n    )\n}\n\ncall TOP()\n", c01MapLit(rng, c01IntLit, true))
+	case 2:
+		sb.WriteString(innerArr)
+		fmt.Fprintf(&sb, "pipeline TOP(\n    out int[][] ys,\n)\n{\n    map call INNER(\n        xs = split %s,\n    )\n\n    return (\n        ys = INNER.ys,\n    )\n}\n\ncall TOP()\n", outerList(func() string { return c01IntsLit(rng) }))
+	case 3:
+		sb.WriteString(innerArr)
+		fmt.Fprintf(&sb, "pipeline TOP(\n    out int[][] ys,\n)\n{\n    call ECHOINTSS as OUTER(\n        want = %s,\n    )\n\n    map call INNER(\n        xs = split OUTER.vals,\n    )\n\n    return (\n        ys = INNER.ys,\n    )\n}\n\ncall TOP()\n", outerList(func() string { return c01IntsLit(rng) }))
+	case 4:
+		sb.WriteString(innerArr)
+		fmt.Fprintf(&sb, "pipeline TOP(\n    out map<int[]> ys,\n)\n{\n    call ECHOMAPS as OUTER(\n        want = %s,\n    )\n\n    map call INNER(\n        xs = split OUTER.vals,\n    )\n\n    return (\n        ys = INNER.ys,\n    )\n}\n\ncall TOP()\n", c01MapLit(rng, c01IntsLit, false))
+	default:
+		sb.WriteString(innerMap)
+		fmt.Fprintf(&sb, "pipeline TOP(\n    out map<int>[] ys,\n)\n{\n    call ECHOMAPARR as OUTER(\n        want = %s,\n    )\n\n    map call INNER(\n        xs = split OUTER.vals,\n    )\n\n    return (\n        ys = INNER.ys,\n    )\n}\n\ncall TOP()\n", outerList(func() string { return c01MapLit(rng, c01IntLit, true) }))
+	}
+	return sb.String()
+}
+
+// ---- family 3: a mapped pipeline whose calls are disabled by a sibling FLAG stage of the same fork ----
+
+// outer: 0 static literal, 1 run-time array, 2 run-time map; two = a second
+// flag stage (negated pattern) disabling a second call
+func c01ForkFlagProgram(flags []bool, outer int, two bool) string {
+	var sb strings.Builder
+	sb.WriteString(c01FamilyStages)
+	sb.WriteString("pipeline MP(\n    in  bool f,\n    in  int  v,\n    out int  a,\n    out int  b,\n)\n{\n")
+	sb.WriteString("    call ECHOFLAG as FLAG(\n        want = self.f,\n    )\n\n")
+	sb.WriteString("    call WORK as A(\n        x = self.v,\n    ) using (\n        disabled = FLAG.flag,\n    )\n\n")
+	if two {
+		sb.WriteString("    call WORK as NEG(\n        x = self.v,\n    ) using (\n        disabled = FLAG.flag,\n    )\n\n")
+		sb.WriteString("    call WORK as B(\n        x = A.y,\n    )\n\n")
+	} else {
+		sb.WriteString("    call WORK as B(\n        x = self.v,\n    )\n\n")
+	}
+	sb.WriteString("    return (\n        a = A.y,\n        b = B.y,\n    )\n}\n\n")
+	fl := make([]string, len(flags))
+	vs := make([]string, len(flags))
+	fm := make([]string, len(flags))
+	vm := make([]string, len(flags))
+	for i, f := range flags {
+		fl[i] = fmt.Sprint(f)
+		vs[i] = fmt.Sprint(i + 1)
+		k := fmt.Sprintf("k%d", i)
+		fm[i] = fmt.Sprintf("%q: %v", k, f)
+		vm[i] = fmt.Sprintf("%q: %d", k, i+1)
+	}
+	switch outer {
+	case 0:
+		fmt.Fprintf(&sb, "pipeline TOP(\n    out int[] a,\n    out int[] b,\n)\n{\n    map call MP(\n        f = split [%s],\n        v = split [%s],\n    )\n\n", strings.Join(fl, ", "), strings.Join(vs, ", "))
+	case 1:
+		fmt.Fprintf(&sb, "pipeline TOP(\n    out int[] a,\n    out int[] b,\n)\n{\n    call ECHOFLAGS as FL(\n        want = [%s],\n    )\n\n    call ECHOINTS as VS(\n        want = [%s],\n    )\n\n    map call MP(\n        f = split FL.flags,\n        v = split VS.vals,\n    )\n\n", strings.Join(fl, ", "), strings.Join(vs, ", "))
+	default:
+		fmt.Fprintf(&sb, "pipeline TOP(\n    out map<int> a,\n    out map<int> b,\n)\n{\n    call ECHOFLAGMAP as FL(\n        want = {%s},\n    )\n\n    call ECHOMAP as VS(\n        want = {%s},\n    )\n\n    map call MP(\n        f = split FL.flags,\n        v = split VS.vals,\n    )\n\n", strings.Join(fm, ", "), strings.Join(vm, ", "))
+	}
+	sb.WriteString("    return (\n        a = MP.a,\n        b = MP.b,\n    )\n}\n\ncall TOP()\n")
+	return sb.String()
+}
+
+func c01NullSplitFamily(rng *rand.Rand, thorough bool) []c01Case {
+	var out []c01Case
+	per := 4
+	if thorough {
+		per = 30
+	}
+	for shape := 0; shape <= 5; shape++ {
+		for i := 0; i < per; i++ {
+			out = append(out, c01Case{
+				name:  fmt.Sprintf("family/null-split-s%d-%d", shape, i),
+				src:   c01NullSplitProgram(rng, shape),
+				stats: map[string]int{"family_null_split": 1},
+			})
+		}
+	}
+	return out
+}
+
+func c01ForkFlagFamily(rng *rand.Rand, thorough bool) []c01Case {
+	var out []c01Case
+	add := func(flags []bool, outer int, two bool) {
+		bits := ""
+		for _, f := range flags {
+			if f {
+				bits += "1"
+			} else {
+				bits += "0"
+			}
+		}
+		out = append(out, c01Case{
+			name:  fmt.Sprintf("family/fork-flag-%s-o%d-two%v", bits, outer, two),
+			src:   c01ForkFlagProgram(flags, outer, two),
+			stats: map[string]int{"family_fork_flag": 1},
+		})
+	}
+	for outer := 0; outer <= 2; outer++ {
+		// fork 0 enabled, a later one disabled — and the reverse
+		add([]bool{false, true}, outer, false)
+		add([]bool{true, false}, outer, false)
+		add([]bool{false, false, true}, outer, true)
+		add([]bool{true, true, false}, outer, true)
+		extra := 1
+		if thorough {
+			extra = 8
+		}
+		for i := 0; i < extra; i++ {
+			n := 2 + rng.Intn(4)
+			flags := make([]bool, n)
+			for j := range flags {
+				flags[j] = rng.Intn(2) == 0
+			}
+			add(flags, outer, rng.Intn(2) == 0)
+		}
+	}
+	return out
+}
+
+// c01Families: all program families of the C01 supply
+func c01Families(rng *rand.Rand, thorough bool) []c01Case {
+	cases := c01DisableFamily(rng, thorough)
+	cases = append(cases, c01NullSplitFamily(rng, thorough)...)
+	cases = append(cases, c01ForkFlagFamily(rng, thorough)...)
+	return cases
+}
+
+func c01FamilyClass(name string) string {
+	name = strings.TrimPrefix(name, "family/")
+	for _, p := range []string{"disabled-nest", "null-split", "fork-flag"} {
+		if strings.HasPrefix(name, p) {
+			return p
+		}
+	}
+	return "other"
+}
+
+// c01InstanceViolations runs the program families under two schedules each and
+// compares, per run, the stage instances that actually ran with the instances
+// the dataflow semantics `den` denotes (exactly one instance per index / key of
+// every mapped call, none below a disabled call).  Reusable by C03: the keys
+// are `<prefix>:instances:missing:<class>` / `…:unexpected:<class>` (and
+// `…:other:<class>` for value differences).
+func c01InstanceViolations(c *Ctx, prefix string) []Violation {
+	cases := c01Families(c.Rng, c.Thorough)
+	var specs []*TASpec
+	owner := []int{}
+	for ci := range cases {
+		for si, s := range c01Schedules(c.Seed, ci)[:2] {
+			sp := s
+			sp.Name = fmt.Sprintf("%s#%d", cases[ci].name, si)
+			sp.Src = cases[ci].src
+			sp.TimeoutS = 12
+			specs = append(specs, &sp)
+			owner = append(owner, ci)
+		}
+	}
+	results := c01RunSpecs(specs, 14)
+	var out []Violation
+	per := map[string]int{}
+	for i, res := range results {
+		cs := cases[owner[i]]
+		class := c01FamilyClass(cs.name)
+		c.Res.hist("instances:" + class + ":" + strings.SplitN(res.Final, ":", 2)[0])
+		if res.Final != "complete" || res.Unsupp != "" || res.Relaunch > 0 {
+			continue
+		}
+		ok, ds, anomalies, bad := c01Check(c, res)
+		c.Res.count("instances|"+cs.src+fmt.Sprint(res.SchedHash), true)
+		if ok || strings.HasPrefix(bad, "skip ") {
+			continue
+		}
+		kind, what, expect, observed := "other", "", "", ""
+		switch {
+		case bad != "":
+			what = "driver could not evaluate the run: " + c01Trunc(bad, 200)
+		case len(anomalies) > 0:
+			kind, what = "unexpected", strings.Join(anomalies, "; ")
+		default:
+			d := ds[0]
+			switch d.Class {
+			case "missing-instance":
+				kind = "missing"
+			case "unexpected-instance", "forks-under-empty-map", "ambiguous-instance":
+				kind = "unexpected"
+			}
+			what = fmt.Sprintf("%s: %s %s", d.Class, d.Where, d.Param)
+			expect, observed = d.Expected, d.Observed
+		}
+		key := fmt.Sprintf("%s:instances:%s:%s", prefix, kind, class)
+		if per[key] >= 2 {
+			continue
+		}
+		per[key]++
+		sp := *specs[i]
+		sp.Src = ""
+		out = append(out, Violation{Kind: "property", Key: key,
+			What:   "the stage instances that ran differ from the instances the dataflow semantics denotes (one per index / key of every mapped call, none below a disabled call): " + what,
+			Input:  map[string]interface{}{"program": cs.src, "name": specs[i].Name, "schedule": sp},
+			Impl:   map[string]interface{}{"observed": observed, "top_outs": string(res.TopOuts), "all_differences": ds},
+			Expect: expect,
+			Broken: "den instances (Martian.Dataflow) vs real fork expansion"})
 	}
 	return out
 }
